@@ -409,6 +409,43 @@ func c01(c *Ctx) {
 				ok = true
 			}
 		}
+		// reply numbers are dense: in send(), the counter is advanced only on paths that append a message (a batch is
+		// numbered 1..n; the resume protocol slices a batch at Reply)
+		if f.send != nil {
+			si := f.send.Info()
+			sg := c.Graph(f.send)
+			rid := c.P.Field("ircserver", "Replyctx", "replyid")
+			msgs := c.P.Field("ircserver", "Replyctx", "Messages")
+			isAppend := func(x int) bool {
+				as, ok := sg.V[x].Node.(*ast.AssignStmt)
+				if !ok || len(as.Lhs) != 1 {
+					return false
+				}
+				se, ok := ast.Unparen(as.Lhs[0]).(*ast.SelectorExpr)
+				return ok && astx.FieldSel(si, se) == msgs && msgs != nil
+			}
+			nInc := 0
+			for _, v := range sg.Nodes() {
+				inc, ok := v.Node.(*ast.IncDecStmt)
+				if !ok {
+					continue
+				}
+				se, ok := ast.Unparen(inc.X).(*ast.SelectorExpr)
+				if !ok || astx.FieldSel(si, se) != rid || rid == nil {
+					continue
+				}
+				nInc++
+				skips := false
+				for _, e := range v.Succ {
+					if sg.Reach(e.To, isAppend, nil)[sg.Exit] && !isAppend(e.To) {
+						skips = true
+					}
+				}
+				r.Check(!skips, "C01.R4", f.send.Name(), "the reply counter advances only when a message is appended", c.P.Pos(inc.Pos()), "replyid++ is followed by the append on every path",
+					"send() advances the reply counter on a path that appends nothing (e.g. before the test for a repeated message): reply numbers inside a batch get holes, so the number of a message no longer is its position — clients that resume inside the batch lose messages")
+			}
+			r.Check(nInc == 1, "C01.R4", f.send.Name(), "one increment of the reply counter", c.P.Pos(f.send.Node().Pos()), itoa(nInc), "expected exactly one replyid++ in send()")
+		}
 		r.Check(ok, "C01.R4", pm.Name(), "reply ids derive from the entry's id", c.P.Pos(pm.Node().Pos()), "msgid: msg.Id.Id", "the reply context's msgid is not the entry's id")
 	}
 	var _ = cfgx.NoReturn
